@@ -48,11 +48,21 @@ static void history(const std::string& s1, const std::string& s2, const std::str
   masa_init<double>(h1, s1); masa_init<double>(h2, s2); g_calls += 2;
   masa_display_param<double>(); masa_display_vec<double>(); if (!fixture2) masa_sanity_check<double>(); g_calls += 3;
   ApiArgs A = tuple0(); for (int k = 0; k < API_N; k++) { API_TABLE[k].cd(A); g_calls++; }
-  for (auto& vn : vec_names_d()) {
-    std::vector<double> v; masa_get_vec<double>(vn, v); std::vector<double> e, t = {1.0, 2.0, 6.0}; masa_set_vec<double>(vn, e); masa_get_vec<double>(vn, v); masa_set_vec<double>(vn, t); masa_get_vec<double>(vn, v);
-    for (int n : {0, 1, 3}) { double arr[8] = {1, 2, 3, 4, 5, 6, 7, 8}; int nn = n; masa_set_array(vn.c_str(), &nn, arr); double out[64]; int m = 0; masa_get_array(vn.c_str(), &m, out); g_calls += 2; }
-    g_calls += 6;
+  // vector parameters: every length change is followed by a full sweep of the evaluators, so that an evaluator indexing a
+  // vector by another vector's length (or by a scalar count) runs with every mixed-length configuration
+  std::vector<std::string> vns = vec_names_d();
+  for (int pass = 0; pass < 2; pass++) {
+    for (int len : {0, 3, 30}) {
+      for (size_t q = 0; q < vns.size(); q++) {
+        const std::string& vn = vns[pass ? vns.size() - 1 - q : q];
+        std::vector<double> v, t(len); for (int i = 0; i < len; i++) t[i] = 0.5 * (i + 1) + len;
+        masa_get_vec<double>(vn, v); masa_set_vec<double>(vn, t); masa_get_vec<double>(vn, v); g_calls += 3;
+        for (int k = 0; k < API_N; k++) { API_TABLE[k].cd(A); g_calls++; }
+      }
+    }
+    if (vns.empty()) break;
   }
+  for (auto& vn : vns) for (int n : {0, 1, 3}) { double arr[8] = {1, 2, 3, 4, 5, 6, 7, 8}; int nn = n; masa_set_array(vn.c_str(), &nn, arr); double out[64]; int m = 0; masa_get_array(vn.c_str(), &m, out); g_calls += 2; }
   { std::vector<double> v; masa_get_vec<double>("no_such_vector", v); double out[4]; int m = 0; masa_get_array("no_such_vector", &m, out); g_calls += 2; }
   masa_select_mms<double>(h1); for (auto& p : par_names_d()) { masa_get_param<double>(p); g_calls++; } masa_get_param<double>("no_such_parameter"); masa_set_param<double>("no_such_parameter", 1.0);
   if (!fixture1) { masa_purge_default_param<double>(); masa_init_param<double>(); }
@@ -72,7 +82,7 @@ int main(int argc, char** argv) {
   if (mode == "fork") {
     int running = 0, bad = 0; long total = 0;
     for (size_t k = 0; k < hist.size(); k += stride) {
-      while (running >= 16) { int st; wait(&st); running--; }
+      while (running >= 16) { int st; pid_t p = wait(&st); running--; if (p > 0 && (!WIFEXITED(st) || WEXITSTATUS(st) != 0)) { bad++; fprintf(fo, "BAD\tpid=%d\tstatus=%d\n", (int)p, st); } }
       fflush(fo); pid_t pid = fork();
       if (pid == 0) { quiet(); history(names[hist[k].first], names[hist[k].second], ""); std::cout.flush(); fflush(stdout); exit(0); }
       running++; total++;
